@@ -1115,6 +1115,32 @@ pub fn probe(
     out
 }
 
+/// target version of the most recent install that finished without a failed app (any lifetime)
+fn finished_install_target(hist: &History, setup: &Setup) -> Option<String> {
+    let sys = &setup.apps[setup.system_idx].id;
+    let mut last_plan_target: Option<String> = None;
+    let mut out = None;
+    for r in hist.iter() {
+        match &r.kind {
+            Kind::Installer(InstallerRec::CreatePlan { response, .. }) => {
+                last_plan_target = None;
+                for a in response.get("app").and_then(|a| a.as_array()).into_iter().flatten() {
+                    if a.get("appid").and_then(|x| x.as_str()) == Some(sys.as_str()) {
+                        last_plan_target = a.get("updatecheck").and_then(|u| u.get("manifest")).and_then(|m| m.get("version")).and_then(|v| v.as_str()).map(|s| s.to_string());
+                    }
+                }
+            }
+            Kind::Installer(InstallerRec::InstallDone { results, .. }) => {
+                if results.iter().all(|x| *x != InstallRes::Failed) && last_plan_target.is_some() {
+                    out = last_plan_target.clone();
+                }
+            }
+            _ => {}
+        }
+    }
+    out
+}
+
 fn system_target_version(hist: &History, setup: &Setup) -> Option<String> {
     let sys = &setup.apps[setup.system_idx].id;
     for r in hist.iter().rev() {
@@ -1188,6 +1214,14 @@ pub fn run_sm(profile: &Profile, cfg: &RunCfg) -> (RunOut, Shared, Option<Setup>
             w.crash_at = None;
             match end {
                 LifeEnd::Crash => {
+                    // the crash may be a power cut: the device can come up in the slot of an update
+                    // that finished installing earlier (the target version of the last finished install)
+                    if let Some(v) = finished_install_target(&w.hist, &setup) {
+                        if w.draws.draw(&format!("L{life}/crash.boots_target"), 3) == 0 {
+                            w.stat("proc.power_cycle_into_target");
+                            setup.os_version = v;
+                        }
+                    }
                     // process restart: monotonic clock keeps running; some time passes
                     let d = w.draws.draw(&format!("L{life}/restart.delay"), 4);
                     w.vt = w.vt.saturating_add([0, SEC, 60 * SEC, 3600 * SEC][d as usize]).min(VT_MAX);
